@@ -115,6 +115,7 @@ type regModel struct {
 	lbinds      map[string]bool
 	pend        []pendW
 	undisc      map[string]bool // connected, detailed discovery not yet received
+	uc          int             // use case of local entity [1]: 0 not declared, 1 not available, 2 available
 	nested      bool            // peers also announce [1,1]
 }
 
@@ -449,7 +450,7 @@ func (rw *regWorld) identityKey() string {
 		}
 	}
 	sort.Strings(s)
-	return " replaced=" + strings.Join(s, ",")
+	return " replaced=" + strings.Join(s, ",") + fmt.Sprintf(" uc=%d", rw.m.uc)
 }
 
 // expectation for the outbound trace of one operation
@@ -656,6 +657,23 @@ func (rw *regWorld) apply(op string, judge bool) (viol []string, digest string, 
 		}
 		exp = append(exp, e)
 		pe.Deliver(d)
+	case "uc":
+		// the use case data of the local node management feature (special role, subscribed by every real peer)
+		// changes: a use case of entity [1] is added, or its availability is set
+		ent := w.L.Entity(spine.NewAddressEntityType([]uint{1}))
+		if m.uc == 0 {
+			ent.AddUseCaseSupport(model.UseCaseActorTypeCEM, ucNames["u1"], "1.0.0", "r", f[1] == "1", scenList("12"))
+		} else {
+			ent.SetUseCaseAvailability(model.UseCaseActorTypeCEM, ucNames["u1"], f[1] == "1")
+		}
+		m.uc = 1 + atoi(f[1])
+		effect = true
+		for _, e := range m.subs {
+			if e.s == "Lnm" {
+				exp = append(exp, expOut{conn: cn(e.peer), class: "notify", src: world.AddrStr(world.LocalNM()), dst: world.AddrStr(cliAddr(e.peer, e.c, true)),
+					ref: -1, err: -1, fn: "NodeManagementUseCaseData", data: world.JSON(w.L.NodeManagement().DataCopy(model.FunctionTypeNodeManagementUseCaseData))})
+			}
+		}
 	case "set", "upd":
 		s, v := f[1], atoi(f[2])
 		fl := rw.local(s)
